@@ -181,12 +181,17 @@ def lineOk (blank : Bool) (l : Nat) : Option Nat → Bool
   | none => true
   | some m => blank || decide (l < m)
 
+/-- a block is a candidate for `imp`: it ends early enough (or is empty), and a `__future__` import only joins a
+    block that already holds one (`import __future__` is an ordinary import) -/
+def candOk (imp : Imp) (blank : Bool) (l : Nat) (maxLine : Option Nat) (set : List Imp) : Bool :=
+  lineOk blank l maxLine && (!isFuture imp || set.any isFuture)
+
 /-- candidates in `import_blocks` order with their sort key -/
 def candidates (st : St) (imp : Imp) (maxLine : Option Nat) : List ((Nat × Nat) × Nat) :=
   st.order.filterMap fun id =>
     match st.blocks.find? (fun b => blockId b = some id) with
     | some (.imports _ _ l e blank set) =>
-      if lineOk blank l maxLine then some (((set.map (prefixMatch imp)).foldl max 0, e), id) else none
+      if candOk imp blank l maxLine set then some (((set.map (prefixMatch imp)).foldl max 0, e), id) else none
     | _ => none
 
 def keyLe (a b : Nat × Nat) : Bool := a.1 < b.1 || (a.1 = b.1 && a.2 ≤ b.2)
